@@ -126,7 +126,8 @@ func checkSanitised(c Case) error {
 	}
 	planted := false
 	mustFail := ""
-	for _, p := range c.Pkgs {
+	reach := reachableSet(c)
+	for pi, p := range c.Pkgs {
 		var rules []refignore.Rule
 		text := ""
 		if p.Rules != nil {
@@ -144,7 +145,7 @@ func checkSanitised(c Case) error {
 						ignored = true
 					}
 				}
-				if !ignored {
+				if !ignored && reach[pi] {
 					mustFail = why
 				}
 			}
@@ -178,10 +179,7 @@ func checkSanitised(c Case) error {
 		return nil
 	}
 	if mustFail != "" {
-		// all packages reachable? package 0 always; others through deps
-		if reachable(c, mustFail) {
-			return fmt.Errorf("the fetched packages contain a %s that no ignore rule removes, but the build reported no error", mustFail)
-		}
+		return fmt.Errorf("a fetched package contains a %s that no ignore rule removes, but the build reported no error", mustFail)
 	}
 	bundle, err := b.Close()
 	if err != nil {
@@ -245,7 +243,8 @@ func checkSanitised(c Case) error {
 	return nil
 }
 
-func reachable(c Case, why string) bool {
+// reachableSet: packages fetched by a build that starts at package 0.
+func reachableSet(c Case) map[int]bool {
 	seen := map[int]bool{}
 	var walk func(i int)
 	walk = func(i int) {
@@ -258,17 +257,7 @@ func reachable(c Case, why string) bool {
 		}
 	}
 	walk(0)
-	for i, p := range c.Pkgs {
-		if !seen[i] {
-			continue
-		}
-		for _, n := range p.Tree {
-			if bad, w := definitelyBad(n); bad && w == why {
-				return true
-			}
-		}
-	}
-	return false
+	return seen
 }
 
 var hazardNodes = []fsx.Node{
@@ -313,6 +302,36 @@ var hazardNodes = []fsx.Node{
 
 var ruleLines = []string{"secret.txt", "cache/", "*.lnk", "logs/", "!logs/a.log", "build/", "*.tfvars", "pipe", "sub/", "!sub/keep.txt", "/ln-*", "zz-*", "*.log", "self", "chain*"}
 
+// combos: hazards and rules that only matter together (a link validated before
+// a rule removes its target; an ignored entry followed by siblings that still
+// need sanitising; re-included content below an ignored directory).
+var combos = []struct {
+	nodes []string
+	rules []string
+}{
+	{[]string{"aa-to-secret", "secret.txt"}, []string{"secret.txt"}},
+	{[]string{"zz-to-secret", "secret.txt"}, []string{"secret.txt"}},
+	{[]string{"aa-into-cache", "cache/v1/data"}, []string{"cache/"}},
+	{[]string{"build", "zz-leak", "prod.tfvars"}, []string{"build/", "*.tfvars"}},
+	{[]string{"build", "zz-leak"}, []string{"build/"}},
+	{[]string{"build", "pipe"}, []string{"build/"}},
+	{[]string{"x.lnk", "out.lnk", "zz-leak"}, []string{"*.lnk"}},
+	{[]string{"logs/pipe", "logs/a.log"}, []string{"logs/", "!logs/a.log"}},
+	{[]string{"logs/pipe", "logs/a.log", "zz-leak"}, []string{"logs/"}},
+	{[]string{"chain1", "chain2", "secret.txt"}, []string{"chain2"}},
+	{[]string{"self", "zz-leak"}, []string{"self"}},
+	{[]string{"ln-canary", "prod.tfvars"}, []string{"/ln-*", "*.tfvars"}},
+}
+
+func nodeByPath(p string) fsx.Node {
+	for _, n := range hazardNodes {
+		if n.Path == p {
+			return n
+		}
+	}
+	panic("no hazard " + p)
+}
+
 func TestPropSanitised(t *testing.T) {
 	ev.Check(t, subSanitised, func(t *rapid.T) Case {
 		n := rapid.IntRange(1, 3).Draw(t, "npkgs")
@@ -328,8 +347,21 @@ func TestPropSanitised(t *testing.T) {
 					p.Tree = append(p.Tree, hazardNodes[h])
 				}
 			}
+			var lines []string
 			if rapid.IntRange(0, 2).Draw(t, "rules?") > 0 {
-				lines := rapid.SliceOfN(rapid.SampledFrom(ruleLines), 0, 4).Draw(t, "rules")
+				lines = rapid.SliceOfN(rapid.SampledFrom(ruleLines), 0, 4).Draw(t, "rules")
+			}
+			if rapid.IntRange(0, 3).Draw(t, "combo?") == 0 {
+				cb := combos[rapid.IntRange(0, len(combos)-1).Draw(t, "combo")]
+				for _, np := range cb.nodes {
+					if !have[np] {
+						have[np] = true
+						p.Tree = append(p.Tree, nodeByPath(np))
+					}
+				}
+				lines = append(lines, cb.rules...)
+			}
+			if lines != nil {
 				s := strings.Join(lines, "\n") + "\n"
 				p.Rules = &s
 			}
